@@ -1,6 +1,6 @@
 (* C07 — the upper noise ceiling is unbeatable; the lower one is leave-one-out and not above it. *)
 From Coq Require Import List ZArith Reals Bool.
-From RSA Require Import Prelude Vec VecR CompareModel CompareProofs CeilModel CeilProofs.
+From RSA Require Import Prelude Vec VecR CompareModel CompareProofs CeilModel CeilProofs CeilCorrProofs.
 Import ListNotations.
 Open Scope R_scope.
 
@@ -45,3 +45,15 @@ Theorem C07_average_rho_a_is_linear_partial : forall (c : list R) (xs : list (li
     / (INR (length c) * INR (length c) * INR (length c) - INR (length c)) * 12.
 Proof. exact sum_rho_a_linear. Qed.
 Print Assumptions C07_average_rho_a_is_linear_partial.
+
+(* upper ceiling (Pearson correlation): no candidate RDM has a higher summed correlation with the data RDMs than the sum of
+   their centred, norm-normalised versions (pool_rdm('corr') is a positive affine image of it), which attains sqrt<P,P> *)
+Theorem C07_corr_pool_optimal : forall p (c : list R) (xs : list (list R)),
+  let P := corr_pool p xs in
+  (0 < p)%nat -> length c = p -> Forall (fun x => length x = p) xs ->
+  0 < dot ROps (center ROps c) (center ROps c) -> 0 < dot ROps P P ->
+  Forall (fun x => 0 < dot ROps (center ROps x) (center ROps x)) xs ->
+  sum ROps (map (corr ROps c) xs) <= sum ROps (map (corr ROps P) xs) /\
+  sum ROps (map (corr ROps P) xs) = sqrt (dot ROps P P).
+Proof. exact corr_pool_optimal. Qed.
+Print Assumptions C07_corr_pool_optimal.
